@@ -360,7 +360,7 @@ def check(case, ctx):
         if list(toc[0].iter('a')):
             raise fail('toc:link-without-id', 'TOC links although headings carry no id')
         entries = [text_of(li).strip().split('\n')[0].strip() for li in toc[0].iter('li')]
-        want_t = [re.sub(r' \[lab\d+\]$', '', text_of(el).strip()) for el in in_toc]      # a manual label is literal text when labels are off
+        want_t = [text_of(el).strip() for el in in_toc]      # the entry shows the heading's text (a `[bracket]` at its end is literal text when labels are off, in both places)
         if entries != want_t:
             raise fail('toc:entries', 'TOC %r\nheadings %r' % (entries, want_t))
     if toc and mode != 'no_labels':
